@@ -224,14 +224,19 @@ def rule_f1b(ck, prog, S):
     facts = K.facts_at(S, bd, inc) or []
     guarded = False
     test_block = None
+    alias = K.field_aliases(bd, "->arbitrary_remaining")
+
+    def remp(x):
+        pth = x.get("path") or ""
+        return pth.endswith("->arbitrary_remaining") or pth in alias
     for atom, pol in facts:
         if isinstance(pol, tuple):
             continue
         if atom.k == "BinaryOperator" and atom.get("op") == "==" and pol and C.const_of(atom.child(1)) == 0 and \
-                (atom.child(0).strip_all_casts().get("path") or "").endswith("->arbitrary_remaining"):
+                remp(atom.child(0).strip_all_casts()):
             guarded = True
             test_block = atom
-        if (atom.get("path") or "").endswith("->arbitrary_remaining") and pol is False:
+        if remp(atom) and pol is False:
             guarded = True
             test_block = atom
     if not guarded:
